@@ -589,6 +589,76 @@ fn part_extra() -> PartResult {
     r
 }
 
+/// "An invalid parameter is answered with an error, never silently misread": lines whose
+/// parameter is not of the form its verb takes (a mode string without sign, a channel name
+/// without its sigil, a limit that is no number ...) sent by the founder of a configured
+/// channel. The sender gets an error line, nobody else hears anything, and the server ends
+/// in the state it was in (masked snapshot equal to the one of the world that did not send).
+pub fn case_invalid(line: &str) -> Vec<Finding> {
+    let cfg = Cfg::default();
+    let run = |line: Option<&str>| -> Result<(crate::state::verif::Snapshot, Vec<String>, Vec<String>), String> {
+        let mut w = World::new(cfg.main_config(), 2);
+        w.register(0, "ann", "au").map_err(|e| e.0)?;
+        w.register(1, "bob", "bu").map_err(|e| e.0)?;
+        for (s, l) in [(0usize, "JOIN #c"), (1, "JOIN #c"), (0, "MODE #c +ntl 5"), (0, "MODE #c +v bob"), (0, "MODE #c +b m!*@*"), (0, "MODE ann +w"), (0, "TOPIC #c :kept")] {
+            w.send(s, l).map_err(|e| e.0)?;
+        }
+        w.take_all();
+        let (mut own, mut other) = (vec![], vec![]);
+        if let Some(l) = line {
+            w.send(0, l).map_err(|e| e.0)?;
+            own = w.take_lines(0);
+            other = w.take_lines(1);
+        }
+        if let Some(c) = w.conns.iter().find_map(|c| if let Life::Panicked(m) = &c.life { Some(m.clone()) } else { None }) {
+            return Err(format!("panic: {}", c));
+        }
+        Ok((crate::canon::masked(&w.snapshot()), own, other))
+    };
+    match (run(Some(line)), run(None)) {
+        (Ok(a), Ok(b)) => {
+            let mut out = vec![];
+            if a.0 != b.0 {
+                out.push(finding("invalid:misread", format!("{:?} has an invalid parameter but changed the server: replies {:?}", line, a.1)));
+            }
+            if !a.2.is_empty() {
+                out.push(finding("invalid:misread", format!("{:?} has an invalid parameter but another member received {:?}", line, a.2)));
+            }
+            // 4xx/5xx, 696 (invalid mode parameter) or an ERROR line
+            let is_err = |l: &String| crate::canon::parse_server_line(l).map_or(false, |m| (m.cmd.len() == 3 && (m.cmd.starts_with(|ch: char| ch == '4' || ch == '5') || m.cmd.starts_with("69"))) || m.cmd.starts_with("ERROR"));
+            if !a.1.iter().any(is_err) {
+                out.push(finding("invalid:silent", format!("{:?} has an invalid parameter but was answered {:?} (no error)", line, a.1)));
+            }
+            out
+        }
+        (a, b) => vec![finding("invalid:machinery", format!("{:?}: {:?} / {:?}", line, a.err(), b.err()))],
+    }
+}
+
+const INVALID_CASES: [&str; 18] = [
+    "MODE #c nt", "MODE #c o bob", "MODE #c v bob", "MODE #c b", "MODE #c l", "MODE #c =n", "MODE ann w", "MODE ann i", "MODE ann =w",
+    "mode #c nt", "MODE #c +l abc", "MODE #c +l -1", "JOIN c", "JOIN c,#d", "PART c", "TOPIC c :x", "KICK c bob", "INVITE bob c",
+];
+
+fn part_invalid() -> PartResult {
+    let t0 = Instant::now();
+    let mut r = PartResult::new("fun:invalid-parameters", "E-FUN");
+    for l in INVALID_CASES {
+        r.evaluations += 1;
+        for f in case_invalid(l) {
+            r.violations.push(fv("fun:invalid-parameters", f, json!({"line": l})));
+        }
+    }
+    r.states = r.evaluations;
+    r.transitions = r.evaluations * 2;
+    r.distinct = r.evaluations;
+    r.traces = r.evaluations * 2;
+    r.exhaustive = true;
+    r.samples = vec![json!({"line": "MODE #c nt", "expect": "an error line to the sender, +n and +t stay set, nobody else hears anything"})];
+    r.wall_s = t0.elapsed().as_secs_f64();
+    r
+}
+
 /// One relay case: `kind` carries `text`; the receiver's line re-parsed by the
 /// reference yields the same verb, target and text.
 pub fn case_relay(kind: &str, text: &str) -> Vec<Finding> {
@@ -758,6 +828,9 @@ fn part_relay(max: u32) -> PartResult {
 }
 
 pub fn replay_fun(scenario: &str, input: &Value) -> Vec<Finding> {
+    if scenario == "fun:invalid-parameters" {
+        return case_invalid(input["line"].as_str().unwrap_or(""));
+    }
     if scenario == "fun:surplus-parameters" {
         return case_extra(input["with_extra"].as_str().unwrap_or(""), input["plain"].as_str().unwrap_or(""));
     }
@@ -784,6 +857,7 @@ pub fn plan(quick: bool) -> Plan {
             Part::Custom("fun:codec".into(), Box::new(part_codec)),
             Part::Custom("fun:relay".into(), Box::new(move || part_relay(lr))),
             Part::Custom("fun:surplus-parameters".into(), Box::new(part_extra)),
+            Part::Custom("fun:invalid-parameters".into(), Box::new(part_invalid)),
         ],
     }
 }
